@@ -15,10 +15,10 @@ func nC14() int {
 func mapC14() map[string]interface{} {
 	m := map[string]interface{}{}
 	keys := []string{"a", "b", "c", "d"}
-	if vBool() {
-		keys = []string{"7", "07", "0", "00"}
-	}
 	n := 2 + vChoose(nC14()-1)
+	if n == 2 && vBool() {
+		keys = []string{"7", "07", "0", "00"} // keys that tie under a numeric comparison
+	}
 	for _, k := range keys[:n] {
 		m[k] = elemC06()
 	}
